@@ -24,7 +24,7 @@ LABELS = ["a", "b", "c", "d", "e", "A", "B", "x", "y", "Cc", "cc"]
 
 OPS = ["append", "append", "insert", "extend_list", "extend_treelist", "iadd", "add", "setitem", "setslice_list", "setslice_treelist",
        "read_data", "read_path", "read_file", "new_tree", "pop", "remove", "delitem", "construct", "migrate", "reconstruct",
-       "update_ns", "getslice", "ta_add_foreign", "ta_add", "new_tree_foreign_ns",
+       "update_ns", "getslice", "ta_add_foreign", "ta_add", "ta_merge_foreign", "ta_merge_foreign", "new_tree_foreign_ns",
        "m_new_sequence", "m_setitem", "m_setitem_foreign", "m_migrate", "m_reconstruct", "m_from_dict",
        "ds_add_list", "ds_add_matrix", "ds_new_tree_list", "ds_new_char_matrix", "ds_read", "ds_attach", "ds_unify", "ds_detach"]
 
@@ -337,6 +337,32 @@ class C11(Machine):
             if st["unify"] and op != "update_ns":
                 self._label_rule(rec, op, items, L.taxon_namespace, None if op == "migrate" or op == "reconstruct" else mb_L)
             return "imported"
+        if op == "ta_merge_foreign":
+            # a tree array over another namespace must not be merged in - whether the receiver is empty or not
+            rec.fault("declared_invalid_operation")
+            t = self._foreign_tree(st)
+            other = dendropy.TreeArray(taxon_namespace=t.taxon_namespace, is_rooted_trees=True)
+            other.add_tree(t)
+            recv = self.ta if st["flag"] else dendropy.TreeArray(taxon_namespace=self.nss[0], is_rooted_trees=True)
+            how = ["extend", "iadd", "add", "update"][st["i"] % 4]
+            n0 = len(recv)
+            try:
+                if how == "extend":
+                    recv.extend(other)
+                elif how == "iadd":
+                    recv += other
+                elif how == "add":
+                    recv = recv + other
+                else:
+                    recv.update(other)
+            except (AssertionError, dperror.TaxonNamespaceIdentityError, TypeError, ValueError):
+                if len(self.ta) != (n0 if st["flag"] else len(self.ta)):
+                    rec.violation("CLOSURE", {"op": op, "what": "refused_but_changed"}, "refused merge changed the receiver")
+                    raise StopRun()
+                return "refused"
+            rec.violation("MISSING_ERROR", {"op": op + ":" + how, "receiver_empty": n0 == 0},
+                          "TreeArray.%s accepted a tree array over a different taxon namespace (receiver held %d trees)" % (how, n0))
+            raise StopRun()
         if op in ("ta_add_foreign", "ta_add"):
             if op == "ta_add_foreign":
                 rec.fault("declared_invalid_operation")
